@@ -84,13 +84,17 @@ def one_call(eng, conf, info, zm, vel_rev, seed, work, tag, multiframe=False):
         "config_index_zero": s.config[1] in (0, None),
         # velocities go through text files with 9 decimals: each component carries up to 5e-10 of rounding
         "momentum_zero": bool(np.max(np.abs(mom)) <= 1e-7 * scale + 1e-9 * float(np.sum(mass))),
-        "kin_new_matches_written": bool(abs(kin_new - kin_w) <= 1e-5 * max(abs(kin_w), 1e-300)),
+        "kin_new_matches_written": bool(abs(kin_new - kin_w) <= 1e-5 * abs(kin_w) + 1e-18 * float(np.sum(mass))),
         "dek_consistent": bool(dek_ok), "same_stream_same_velocities": bool(np.array_equal(v1, v2)),
         "stream_advanced": st0 != st1, "foreign": int(fr.count), "foreign_who": fr.who[:3],
         "stat_checked": False, "mean_ok": True, "var_ok": True,
         "detail": {"kin_new": float(kin_new), "kin_written": float(kin_w), "dek": (None if math.isinf(dek) else float(dek)), "kin_old": float(kin_old)},
     }
     return ev
+
+
+def name_is_1d(eng):
+    return getattr(eng, "dim", 3) == 1
 
 
 def caller_untouched(eng, conf, work, tag):
@@ -103,7 +107,7 @@ def caller_untouched(eng, conf, work, tag):
     exe = os.path.join(work, f"psp_{tag}")
     os.makedirs(exe, exist_ok=True)
     eng.exe_dir = exe
-    eng.order_function = OP.Distance((0, 1), periodic=False)
+    eng.order_function = OP.Position((0, 0), periodic=False) if name_is_1d(eng) else OP.Distance((0, 1), periodic=False)
     eng.rgen = np.random.default_rng(5)
     p = Path()
     for k in range(3):
@@ -220,13 +224,13 @@ def collect(chk, tier, work, pid, clauses, extra_events=None):
     q = tier == "quick"
     cfg = os.path.join(work, "Velocity.cfg")
     with open(os.path.join(work, "MC_Velocity.tla"), "w") as fh:
-        fh.write('---- MODULE MC_Velocity ----\nEXTENDS Velocity\nEng == {"gromacs", "cp2k", "lammps", "ase", "turtlemd"}\n====\n')
+        fh.write('---- MODULE MC_Velocity ----\nEXTENDS Velocity\nEng == {"gromacs", "cp2k", "lammps", "ase", "turtlemd", "turtlemd1d"}\n====\n')
     os.symlink(os.path.join(tlc.SPEC_DIR, "Velocity.tla"), os.path.join(work, "Velocity.tla"))
     with open(cfg, "w") as fh:
         fh.write("SPECIFICATION CSpec\nCONSTANTS\n  Engines <- Eng\nCHECK_DEADLOCK FALSE\n")
     dot = os.path.join(work, "vel.dot")
     res = tlc.run_tlc(os.path.join(work, "MC_Velocity.tla"), cfg, dump=dot, timeout=600, allow_violation=True, cwd=work)
-    chk.add_tlc(res, {"Engines": 5})
+    chk.add_tlc(res, {"Engines": 6})
     raw, _i, _e = tlc.read_dot(dot, parse=True)
     calls = {}
     for st in raw.values():
